@@ -65,8 +65,40 @@ def main():
     finally:
         sh(f"git -C /repo worktree remove --force {wt}")
         shutil.rmtree(wt, ignore_errors=True)
+    if "--store" in sys.argv and res.get("demo_clean_rc") == 0 and res.get("demo_patched_rc") not in (0, None) and res.get("tests_ok"):
+        dst = os.path.join(VERIF, "seeded", sid)
+        os.makedirs(dst, exist_ok=True)
+        shutil.copy(os.path.join(src, "patch.diff"), os.path.join(dst, "patch.diff"))
+        with open(os.path.join(dst, "demo.py"), "w") as f:
+            f.write("".join(ln for ln in open(os.path.join(src, "demo.py")) if "__file__.startswith" not in ln))
+        notes = ""
+        if os.path.exists(os.path.join(src, "notes.md")):
+            notes = open(os.path.join(src, "notes.md")).read()
+            shutil.copy(os.path.join(src, "notes.md"), os.path.join(dst, "notes.md"))
+        meta_path = os.path.join(dst, "meta.json")
+        meta = json.load(open(meta_path)) if os.path.exists(meta_path) else {}
+        meta.update({
+            "id": sid,
+            "breaks_property": props[0],
+            "origin": "independent sub-agent given only the property text and a scratch worktree",
+            "needs_to_manifest": _needs(notes),
+            "confirmed": {"demo_passes_without_patch": True, "demo_fails_with_patch": True,
+                          "pinned_suite_with_patch": res.get("tests")},
+            "ran": [f"git apply patch.diff in a scratch worktree of /repo HEAD; demo.py without/with patch; tools/run_tests.sh; "
+                    f"VERIF_REPO=<worktree> ./vcheck <prop> --tier {tier}"],
+        })
+        det = meta.setdefault("checks", {})
+        for p in props:
+            det[p] = {"tier": tier, "detected": res[p]["detected"], "first_violation": res[p]["first"][:1], "wall_s": res[p]["wall"]}
+        with open(meta_path, "w") as f:
+            json.dump(meta, f, indent=1)
     print(json.dumps(res, indent=1))
     return 0
+
+
+def _needs(notes):
+    keep = [ln.strip() for ln in notes.splitlines() if any(w in ln.lower() for w in ("needs", "only", "manifest", "condition", "requires"))]
+    return " ".join(keep)[:600] or "see notes.md"
 
 
 if __name__ == "__main__":
